@@ -2,6 +2,7 @@ package zzverif
 
 import (
 	"fmt"
+	"math"
 	"sort"
 	"time"
 
@@ -55,6 +56,7 @@ func (cr *concRun) analyse(out *ConcOutcome) {
 	cr.checkStats()
 	cr.checkSweep()
 	cr.checkRefreshTrigger()
+	cr.checkFreshNotReloaded()
 	cr.checkConcIter()
 	cr.checkRejectedLoads()
 	cr.checkBulkResults()
@@ -1467,6 +1469,85 @@ func (cr *concRun) checkRefreshTrigger() {
 				if nv, ok := l.Ret[h.Op.K]; ok && nv == h.Res.V {
 					cr.fail(P("C11"), "refresh.returned-reloaded", h.Op.K, "Get of key %d returned the reloaded value %d", h.Op.K, nv)
 				}
+			}
+		}
+	}
+}
+
+// checkFreshNotReloaded (C11: "reads of fresh entries trigger nothing"): a reload that a Get or
+// BulkGet handed to the executor was given the old value v; v's refresh deadline is the clock sample
+// of the operation that installed v plus what the refresh calculator returned for it, and the read
+// that triggered the reload sampled the clock no later than its own return. If even the latest
+// possible sample of the read lies before the earliest possible deadline of v, a fresh entry was
+// reloaded. Applied only where the deadline of v can be bounded from the outside: every refresh
+// calculator returns a positive duration for (k, v) (so nothing is inherited from an older value) and
+// no SetRefreshableAfter touches the key in the run. Explicit Refresh / BulkRefresh reload regardless
+// of freshness and are not judged.
+func (cr *concRun) checkFreshNotReloaded() {
+	cfg := &cr.cc.Cfg
+	if !cfg.withRefresh() {
+		return
+	}
+	overridden := map[int]bool{}
+	lb := map[int]int64{} // value -> lower bound of the clock sample its installation used
+	for _, h := range cr.hist {
+		op := h.Op
+		switch op.Kind {
+		case "setrefreshable":
+			overridden[op.K] = true
+		case "set", "setifabsent", "compute", "computeifpresent", "computeifabsent":
+			if _, dup := lb[op.V]; !dup {
+				lb[op.V] = h.Now
+			}
+		}
+	}
+	for _, l := range cr.r.Loads {
+		for _, v := range l.Ret {
+			if _, dup := lb[v]; !dup {
+				lb[v] = l.NowEnter
+			}
+		}
+	}
+	for _, l := range cr.r.Loads {
+		if !l.Reload || l.Op == nil || (l.Op.Kind != "load" && l.Op.Kind != "bulkget") || len(l.Olds) != len(l.Keys) {
+			continue
+		}
+		var trig *HistOp
+		for _, h := range cr.hist {
+			if h.Op == l.Op {
+				trig = h
+				break
+			}
+		}
+		if trig == nil || !trig.Done {
+			continue
+		}
+		for i, k := range l.Keys {
+			v := l.Olds[i]
+			t0, ok := lb[v]
+			if !ok || overridden[k] {
+				continue
+			}
+			ds := []int64{cfg.refCreate(k, v), cfg.refUpdate(k, v), cfg.refReload(k, v)}
+			if f := cfg.refFail(k, v); f != 0 {
+				ds = append(ds, f)
+			}
+			dmin := int64(math.MaxInt64)
+			for _, d := range ds {
+				if d < dmin {
+					dmin = d
+				}
+			}
+			if dmin <= 0 {
+				continue
+			}
+			cr.probe["reload-triggers-checked-for-freshness"]++
+			deadline := t0 + dmin
+			if deadline < t0 {
+				deadline = math.MaxInt64
+			}
+			if trig.NowRet < deadline {
+				cr.fail(P("C11"), "refresh.fresh-entry-reloaded", k, "key %d: a read (task %d op %d, clock <= %d) handed a reload of value %d to the executor although that value was installed at clock >= %d and stays fresh for at least %d ns (earliest refresh time %d)", k, trig.Task, trig.Idx, trig.NowRet, v, t0, dmin, deadline)
 			}
 		}
 	}
